@@ -69,6 +69,8 @@ pub enum Fault {
     EgressDown { at: usize },
     /// delivered to a wrong AS / interface before step `at`
     Misdeliver { at: usize, to: usize, ifid: u16 },
+    /// flip bit `bit` of the byte at absolute offset `off` before step `at`
+    RawFlip { at: usize, off: usize, bit: u8 },
 }
 
 #[derive(Clone, Debug)]
@@ -76,6 +78,8 @@ pub struct Step {
     pub at: usize,
     pub ing: u16,
     pub out: String,
+    pub ok: bool,
+    pub bytes_before: Vec<u8>,
     pub bytes_after: Vec<u8>,
 }
 
@@ -149,6 +153,11 @@ fn walk(w: &mut World, which_real: bool, pkt: &[u8], start: usize, start_ing: u1
                         }
                     }
                 }
+                Fault::RawFlip { at: s, off, bit } if *s == k => {
+                    if *off < b.len() {
+                        b[*off] ^= 1 << (bit % 8);
+                    }
+                }
                 Fault::Delay { at: s, secs } if *s == k => now = now.saturating_add(*secs),
                 Fault::EgressDown { at: s } if *s == k => egress_down = true,
                 Fault::Misdeliver { at: s, to, ifid } if *s == k => {
@@ -170,6 +179,7 @@ fn walk(w: &mut World, which_real: bool, pkt: &[u8], start: usize, start_ing: u1
                 downed.push((at, eg));
             }
         }
+        let bytes_before = b.clone();
         let (v, note) = if which_real {
             match real_step(w, at, ing, now, &mut b) {
                 Ok(x) => x,
@@ -181,7 +191,7 @@ fn walk(w: &mut World, which_real: bool, pkt: &[u8], start: usize, start_ing: u1
         } else {
             (refrouter::step(&m, at, ing, now, &mut b), None)
         };
-        steps.push(Step { at, ing, out: format!("{v:?}{}", note.map(|n| format!("[{n}]")).unwrap_or_default()), bytes_after: b.clone() });
+        steps.push(Step { at, ing, out: format!("{v:?}{}", note.map(|n| format!("[{n}]")).unwrap_or_default()), ok: matches!(v, Verdict::Forward(_) | Verdict::Deliver), bytes_before, bytes_after: b.clone() });
         match v {
             Verdict::Forward(eg) => match m.ases[at].ifs.get(&eg) {
                 Some(f) => {
@@ -312,6 +322,7 @@ pub fn classify(clause: &str, detail: &str, _trace: &[String]) -> Option<&'stati
                 None
             }
         }
+        "C11/failure-changes-path-bytes" => Some("C11/refused-packet-leaves-with-changed-path-bytes"),
         "C13/simulator-error" if detail.contains("one-hop packet") && detail.contains("no link for") => Some("C13/one-hop-checks-skipped"),
         "C01/offered-path-not-forwardable-by-the-sdk-router" => {
             if detail.contains("[peering]") {
@@ -359,7 +370,174 @@ fn is_shortcut_or_peering(p_shape: &str, b: &[u8]) -> &'static str {
     ""
 }
 
+/// Pointer position (CurrINF, CurrHF) and hop count of a standard path, by the simulator's own decoder.
+fn pointers(b: &[u8]) -> Option<(usize, usize, usize)> {
+    let h = refrouter::parse_hdr(b)?;
+    if h.path_type != 1 {
+        return None;
+    }
+    let sp = refrouter::StdPath::parse(b, h.path_off, h.hdr_len)?;
+    Some((sp.curr_inf, sp.curr_hf, sp.n_hf))
+}
+
+/// C11, per real AS step: a refused packet's path bytes are untouched; an accepted one moved strictly forward; the
+/// number of accepted steps never exceeds the hop-field count.
+fn check_steps(ctx: &mut RunCtx, w: &World, what: &str, o: &WalkOut) -> RunResult {
+    let mut accepted = 0usize;
+    let mut n_hf = 0usize;
+    for (k, st) in o.steps.iter().enumerate() {
+        ctx.checked();
+        let (hb, ha) = (refrouter::parse_hdr(&st.bytes_before), refrouter::parse_hdr(&st.bytes_after));
+        if let (Some(hb), Some(_)) = (&hb, &ha) {
+            if hb.path_type == 1 {
+                if let Some((_, _, n)) = pointers(&st.bytes_before) {
+                    n_hf = n_hf.max(n);
+                }
+            }
+        }
+        if !st.ok {
+            if let Some(hb) = &hb {
+                let (pb, pa) = (&st.bytes_before[hb.path_off..hb.hdr_len], st.bytes_after.get(hb.path_off..hb.hdr_len));
+                if Some(pb) != pa {
+                    let diff: Vec<usize> = pa.map(|pa| (0..pb.len()).filter(|i| pb[*i] != pa[*i]).collect()).unwrap_or_default();
+                    ctx.probe("refusal-checked-for-atomicity");
+                    return ctx.violate(
+                        "C11/failure-changes-path-bytes",
+                        format!("{what}: step {k} at {}#{} answered {} and changed path bytes at offsets {diff:?} (relative to the path header)", w.m.name(st.at), st.ing, st.out),
+                    );
+                }
+                ctx.probe("refusal-checked-for-atomicity");
+            }
+        } else {
+            accepted += 1;
+            if let (Some((_, jb, _)), Some((_, ja, _))) = (pointers(&st.bytes_before), pointers(&st.bytes_after)) {
+                let delivered = st.out.starts_with("Deliver");
+                if !(ja > jb || delivered) {
+                    return ctx.violate("C11/accepted-step-does-not-advance", format!("{what}: step {k} at {} accepted the packet but the current hop pointer went {jb} -> {ja}", w.m.name(st.at)));
+                }
+                if ja < jb {
+                    return ctx.violate("C11/pointer-moved-backwards", format!("{what}: step {k} at {}: {jb} -> {ja}", w.m.name(st.at)));
+                }
+            }
+        }
+    }
+    if n_hf > 0 && accepted > n_hf {
+        return ctx.violate("C11/more-accepted-steps-than-hop-fields", format!("{what}: {accepted} accepted AS steps on a path of {n_hf} hop fields"));
+    }
+    Ok(())
+}
+
+fn run_c11(ctx: &mut RunCtx) -> RunResult {
+    let mut w = topo::draw(ctx);
+    let reg = SegmentRegistry::from_topology(&w.real);
+    let n = w.m.ases.len();
+    let ts = T0 - ctx.ch.draw(3000) as u32;
+    let seg_id = ctx.ch.draw(65536) as u16;
+    let exp = [255u8, 63, 1][ctx.ch.idx(3)];
+    let life = ((exp as u64 + 1) * 675 / 2) as u32;
+    let now = ts + 1 + ctx.ch.draw((life - 3) as u64) as u32;
+    ctx.log(format!("c11 beacons ts=T0-{} seg_id={seg_id} exp={exp} now=ts+{}", T0 - ts, now - ts));
+    for _ in 0..(1 + ctx.ch.idx(3)) {
+        let (src, dst) = (ctx.ch.idx(n), ctx.ch.idx(n));
+        if src == dst {
+            continue;
+        }
+        let paths = offered(&w, &reg, src, dst, ts, seg_id, exp, false).unwrap_or_default();
+        for p in paths.into_iter().take(5) {
+            let Some(pkt) = packet_for(&p, b"c11") else { continue };
+            let sh = shape(&p);
+            if sh.contains('P') {
+                continue; // peering paths: separate known findings (C01/C13)
+            }
+            // (1) with the right keys the authentic path verifies at every hop, forwards and backwards
+            let fwd = walk(&mut w, true, &pkt, src, 0, now, &[], 200);
+            ctx.log(format!("c11 path {}->{} {sh}: {}", w.m.name(src), w.m.name(dst), fwd.fin.class()));
+            check_steps(ctx, &w, "authentic path", &fwd)?;
+            if fwd.fin != Final::Delivered(dst) {
+                return ctx.violate("C11/authentic-path-does-not-verify", format!("path {sh} {}->{}: {:?}; steps: {}", w.m.name(src), w.m.name(dst), fwd.fin, describe_steps(&w, &fwd)));
+            }
+            ctx.probe("authentic-path-verified");
+            let delivered = fwd.steps.last().map(|s| s.bytes_after.clone()).unwrap_or_default();
+            if let Ok(rpkt) = reply_packet(&delivered) {
+                let back = walk(&mut w, true, &rpkt, dst, 0, now, &[], 200);
+                check_steps(ctx, &w, "reversed path", &back)?;
+                if back.fin != Final::Delivered(src) {
+                    return ctx.violate("C11/authentic-path-does-not-verify", format!("reverse of path {sh} {}->{}: {:?}; steps: {}", w.m.name(src), w.m.name(dst), back.fin, describe_steps(&w, &back)));
+                }
+                ctx.probe("reverse-path-verified");
+            }
+            // (1b) a copy of the packet shows up again at an AS it already passed (replay / mis-delivery): however the
+            // routers answer, no step may go backwards and the accepted steps stay within the hop-field count
+            if fwd.steps.len() >= 2 && ctx.ch.chance(1, 2) {
+                let k = 1 + ctx.ch.idx(fwd.steps.len() - 1);
+                let j = ctx.ch.idx(k);
+                let plan = vec![Fault::Misdeliver { at: k, to: fwd.steps[j].at, ifid: fwd.steps[j].ing }];
+                ctx.fault("replayed-at-earlier-as");
+                let r = walk(&mut w, true, &pkt, src, 0, now, &plan, 200);
+                check_steps(ctx, &w, "packet replayed at an earlier AS", &r)?;
+            }
+            // (2) tampering in flight with an authenticated field of a hop field that is still to be verified
+            for _ in 0..(1 + ctx.ch.idx(4)) {
+                let k = ctx.ch.idx(fwd.steps.len());
+                let at_bytes = if k == 0 { pkt.clone() } else { fwd.steps[k - 1].bytes_after.clone() };
+                let Some(h) = refrouter::parse_hdr(&at_bytes) else { continue };
+                let Some(sp) = refrouter::StdPath::parse(&at_bytes, h.path_off, h.hdr_len) else { continue };
+                // choose the field
+                let (off, what, owner_hop): (usize, String, usize) = match ctx.ch.draw(3) {
+                    0 => {
+                        // a hop field not yet processed: ExpTime, ConsIngress, ConsEgress or MAC
+                        let j = sp.curr_hf + ctx.ch.idx(sp.n_hf - sp.curr_hf);
+                        let o = 1 + ctx.ch.idx(11);
+                        (sp.hop_off(j) + o, format!("hop field {j} byte {o}"), j)
+                    }
+                    1 => {
+                        // SegID of the current or a later segment
+                        let i = sp.curr_inf + ctx.ch.idx(sp.n_inf - sp.curr_inf);
+                        let first_unverified = sp.curr_hf.max(sp.seg_start(i));
+                        (sp.info_off(i) + 2 + ctx.ch.idx(2), format!("SegID of segment {i}"), first_unverified)
+                    }
+                    _ => {
+                        let i = sp.curr_inf + ctx.ch.idx(sp.n_inf - sp.curr_inf);
+                        let first_unverified = sp.curr_hf.max(sp.seg_start(i));
+                        (sp.info_off(i) + 4 + ctx.ch.idx(4), format!("timestamp of segment {i}"), first_unverified)
+                    }
+                };
+                let bit = ctx.ch.draw(8) as u8;
+                let second = ctx.ch.chance(1, 4);
+                let mut plan = vec![Fault::RawFlip { at: k, off, bit }];
+                if second {
+                    plan.push(Fault::RawFlip { at: k, off: off ^ 1, bit: (bit + 3) % 8 });
+                }
+                ctx.fault("tamper-authenticated-field");
+                let t = walk(&mut w, true, &pkt, src, 0, now, &plan, 200);
+                ctx.log(format!("c11 tamper before step {k}: {what} bit {bit}{}: {}", if second { " (+second flip)" } else { "" }, t.fin.class()));
+                check_steps(ctx, &w, "tampered path", &t)?;
+                ctx.checked();
+                if matches!(t.fin, Final::Delivered(_)) {
+                    return ctx.violate("C11/tampering-not-detected", format!("path {sh}: flipping {what} (bit {bit}) before step {k} went unnoticed: {:?}; steps: {}", t.fin, describe_steps(&w, &t)));
+                }
+                // detected no later than at the AS that owns the tampered hop field: that AS is the one the honest
+                // walk was at when the pointer reached the hop field
+                let owner_step = fwd.steps.iter().position(|s| pointers(&s.bytes_before).map(|p| p.1 <= owner_hop).unwrap_or(false) && pointers(&s.bytes_after).map(|p| p.1 > owner_hop || s.out.starts_with("Deliver")).unwrap_or(false));
+                if let Some(os) = owner_step {
+                    if t.steps.len() > os + 1 && !matches!(t.fin, Final::Alert(_)) {
+                        return ctx.violate(
+                            "C11/tampering-detected-too-late",
+                            format!("path {sh}: flipping {what} before step {k} was only noticed at step {} although the owning AS is visited at step {os}; steps: {}", t.steps.len() - 1, describe_steps(&w, &t)),
+                        );
+                    }
+                    ctx.probe("tamper-detected-in-time");
+                }
+            }
+        }
+    }
+    Ok(())
+}
+
 fn run_net(prop: &str, ctx: &mut RunCtx) -> RunResult {
+    if prop == "C11" {
+        return run_c11(ctx);
+    }
     let mut w = topo::draw(ctx);
     for a in 0..w.m.ases.len() {
         ctx.log(format!("as {} core={} ifs={:?}", w.m.name(a), w.m.ases[a].core, w.m.ases[a].ifs.keys().collect::<Vec<_>>()));
@@ -795,7 +973,7 @@ impl Engine for NetEngine {
         "verif-net"
     }
     fn properties(&self) -> &'static [&'static str] {
-        &["C13", "C01"]
+        &["C13", "C01", "C11"]
     }
     fn run(&self, prop: &str, ctx: &mut RunCtx) -> RunResult {
         run_net(prop, ctx)
@@ -833,6 +1011,7 @@ impl Engine for NetEngine {
     }
     fn required_reach(&self, prop: &str) -> Vec<&'static str> {
         match prop {
+            "C11" => vec!["authentic-path-verified", "reverse-path-verified", "tamper-authenticated-field", "tamper-detected-in-time", "refusal-checked-for-atomicity", "replayed-at-earlier-as"],
             "C13" => vec!["shortcut-path", "peering-path", "three-segment-path", "attacker-recombination", "attack-accepted-by-reference", "attack-refused-by-reference", "bit-flip", "delay-across-expiry", "link-down-in-flight", "misdelivery", "one-hop-packet", "one-hop-delivered"],
             _ => vec!["pair-with-paths", "shortcut-path", "peering-path", "three-segment-path", "reverse-walked"],
         }
